@@ -15,13 +15,17 @@ column, positional list == per-column lookup in dataframe column order, iteratio
 the unit that was explicitly given for it (at construction by position, through add_column, a setter or a re-wrap) as
 long as it stays in the frame, and the CSV text (written in both orientations), JsonData and Excel-sheet layout pair
 every name with that column's own unit; in the CSV text the numbers of every column are rendered with that column's own
-display format (Python's format() of the stored values, str() for columns without one).
+display format (Python's format() of the stored values, str() for columns without one; CSV only: the Excel and JSON
+writers ignore display formats).  Excel goes through the public `write_excel` (stream or path) and is read back.
+A writer that raises on a readable table is a failure unless the oracle-side classification (`writer_reasons`, judged
+from the data, units and formats) says the table is outside what that writer handles.
 
 This module is also the engine of C15 (`harness/props/c15.py` re-uses it with its own oracle and weights).
 """
 import io
 import itertools
 import json
+import re
 import logging
 import types
 import warnings
@@ -287,6 +291,16 @@ def state_fields(info, out):
     return f
 
 
+def table_info_of(df):
+    """the table information attached to a frame, without consulting it (public route:
+    `get_table_info(df, check_dataframe=False)`); None for a plain DataFrame or a frame that lost it"""
+    try:
+        from pdtable.frame import get_table_info
+        return get_table_info(df, fail_if_missing=False, check_dataframe=False)
+    except Exception:
+        return None
+
+
 def reg_snapshot(info):
     res = []
     for name, c in info.columns.items():
@@ -307,8 +321,11 @@ class Hooks:
     def __enter__(self):
         import pdtable.frame as F
         self.F = F
-        self.orig_combine = F._combine_tables
+        self.orig_combine = getattr(F, "_combine_tables", None)
         self.orig_fin = F.TableDataFrame.__finalize__
+        # `_combine_tables` is a private helper: when it is not there under that name the sources of a derived frame
+        # cannot be observed; derived frames are then outside what this harness can follow (histories are cut there)
+        self.observable = self.orig_combine is not None
         hooks = self
 
         def combine(obj, other, method, **kw):
@@ -321,7 +338,7 @@ class Hooks:
                     src = list(other.objs)
                 else:
                     src = [other]
-                data = [d for d in (getattr(s, "_table_data", None) for s in src) if d is not None]
+                data = [d for d in (table_info_of(s) for s in src) if d is not None]
                 rec["srcs"] = [reg_snapshot(d) for d in data]
                 rec["frame"] = hooks.obs.frame(obj)
             except Abort:
@@ -352,12 +369,14 @@ class Hooks:
                     hooks.recs[-1]["exc"] = type(e).__name__
                 raise
 
-        F._combine_tables = combine
+        if self.observable:
+            F._combine_tables = combine
         F.TableDataFrame.__finalize__ = fin
         return self
 
     def __exit__(self, *a):
-        self.F._combine_tables = self.orig_combine
+        if self.observable:
+            self.F._combine_tables = self.orig_combine
         self.F.TableDataFrame.__finalize__ = self.orig_fin
 
 
@@ -371,7 +390,11 @@ class TableState:
         self.df = df
         self.slot = slot            # index of this table's info in the model driver
         self.tainted = False        # a special unit was involved in a unit-setter call since the last full validation
-        self.taint_obs = None       # what the table looked like (frame + strict flag) when it was tainted
+        self.taint_obs = None       # (kept for replay compatibility; not used for clearing any more)
+        self.revalidated = False    # evidence, since the taint, that the library validated this table again
+        self.refused = False        # the last operation on this table was refused by pandas before anything changed
+        self.seen = None            # (look, units by name) at the last successful consultation of this table
+        self.ops_since = 0          # operations on this table since that consultation
         self.expect_default = {}    # column name -> True: created without explicit unit, check at next success
         self.assigned = dict(assigned or {})   # column name -> the unit explicitly given for that column
         # column name -> display-format specifier given for that column (None: known to have none); kept by the
@@ -396,6 +419,10 @@ class Ctx:
 
     tainted = _delegate("tainted")
     taint_obs = _delegate("taint_obs")
+    revalidated = _delegate("revalidated")
+    refused = _delegate("refused")
+    seen = _delegate("seen")
+    ops_since = _delegate("ops_since")
     expect_default = _delegate("expect_default")
     assigned = _delegate("assigned")
     assigned_fmt = _delegate("assigned_fmt")
@@ -416,7 +443,7 @@ class Ctx:
 
     @property
     def info(self):
-        return self.df._table_data
+        return table_info_of(self.df)
 
     def look(self):
         """what a consultation can depend on, as seen from outside: columns, dtypes, emptiness, strict flag"""
@@ -426,7 +453,7 @@ class Ctx:
         """a unit setter put or removed a special unit: C15 is not claimed for this table until it is validated
         again, i.e. until a consultation succeeds on a table that does not look like it did at this moment"""
         self.tainted = True
-        self.taint_obs = self.look()
+        self.revalidated = False
 
     def send(self, k, res, frame=None, info=None, t=None, **args):
         """append one model step with what the implementation answered"""
@@ -529,13 +556,22 @@ def nrows_for_assign(ctx):
     return len(ctx.df)
 
 
+def wrong_length(ctx):
+    """now and then the values handed to an assignment have one element too many: pandas refuses them, the caller
+    catches the exception and goes on with the table — which must be as it was before"""
+    if len(ctx.df.columns) > 0 and ctx.rng.chance(0.12):
+        ctx.out.count("values_of_wrong_length")
+        return 1
+    return 0
+
+
 def op_add_column(ctx, setitem=False):
     from pdtable import Table
     from pdtable.table_metadata import ColumnFormat
     rng = ctx.rng
     name = pick_name(ctx, 0.5)
     kind = rng.choice(KINDS)
-    vals = make_values(rng, kind, nrows_for_assign(ctx))
+    vals = make_values(rng, kind, nrows_for_assign(ctx) + wrong_length(ctx))
     unit, kw = None, {}
     if not setitem:
         r = rng.random()
@@ -557,12 +593,22 @@ def op_add_column(ctx, setitem=False):
         if _raised_in_assignment(e):
             # `df[name] = values` itself was refused by pandas: nothing reached pdtable
             ctx.out.count("pandas_refused_assignment:" + res["exc"])
-            return f"add_column({name!r},{kind}) -> pandas {res['exc']}"
+            ctx.refused = True
+            return f"add_column({name!r},{kind},{unit!r}) -> pandas {res['exc']}"
+        # pdtable itself raised after the assignment.  Overwriting / adding a column through the facade is an operation
+        # of the statement: it may only be refused for a dtype without a StarTable unit (no unit given) or for a
+        # duplicated label; the validation against the data happens at the next consultation
+        new_kind = _kind_after(ctx.df, name)
+        legit = (unit is None and new_kind is not None and new_kind not in "biufMOSU") or list(ctx.df.columns).count(name) > 1
+        if not legit and ctx.prop == "C04":
+            _fail(ctx, "adding / overwriting a column through the facade raised instead of registering the column",
+                  {"exc": res["exc"], "column": name, "unit": unit, "kind": new_kind}, "the column with one unit",
+                  "C04:facade-overwrite-raised:" + res["exc"])
     desc = f"{'setitem' if setitem else 'add_column'}({name!r},{kind},{unit!r},{sorted(kw)})"
     f = kw.get("display_format")
     ctx.send("add_column", res, name=name, unit=unit, dunit=kw.get("display_unit"),
              fmt=None if f is None else str(f.specifier))
-    ctx.taint_obs = None            # add_column forgets the remembered state: the next success is a validation
+    ctx.revalidated = True          # add_column asks for re-validation: the next successful consultation validated
     if res is None and unit is None:
         ctx.expect_default[name] = True
     else:
@@ -584,6 +630,13 @@ def op_add_column(ctx, setitem=False):
     elif spec is not None:
         ctx.assigned_fmt.pop(name, None)
     return desc
+
+
+def _kind_after(df, name):
+    try:
+        return df[name].dtype.kind
+    except Exception:
+        return None
 
 
 def _raised_in_assignment(e):
@@ -785,8 +838,9 @@ def inplace(ctx, fn, desc):
         quiet(fn, ctx.df)
     except Exception as e:
         ctx.out.count("pandas_error:" + type(e).__name__)
+        ctx.refused = True
         return desc + " -> pandas " + type(e).__name__
-    if getattr(ctx.df, "_table_data", None) is not before_info:
+    if table_info_of(ctx.df) is not before_info:
         raise Abort("in-place operation replaced the info object")
     return desc
 
@@ -795,7 +849,7 @@ def op_df_insert(ctx):
     rng = ctx.rng
     name = pick_name(ctx, 0.9)
     kind = rng.choice(KINDS)
-    vals = make_values(rng, kind, nrows_for_assign(ctx))
+    vals = make_values(rng, kind, nrows_for_assign(ctx) + wrong_length(ctx))
     pos = rng.randint(0, len(ctx.df.columns))
     allow = rng.chance(0.1)
     known = name in ctx.info.columns
@@ -877,7 +931,7 @@ def op_df_assign(ctx):
     rng = ctx.rng
     name = pick_name(ctx, 0.3)
     kind = rng.choice(KINDS)
-    vals = make_values(rng, kind, nrows_for_assign(ctx))
+    vals = make_values(rng, kind, nrows_for_assign(ctx) + wrong_length(ctx))
     known = name in ctx.info.columns
 
     def f(df):
@@ -1064,6 +1118,9 @@ def derived(ctx, fn, desc, keeps_units=True):
             err = None
         except Exception as e:
             r, err = None, e
+    if not hk.observable:
+        ctx.out.count("hooks:unobservable")
+        raise Abort("derived frames cannot be observed (no pdtable.frame._combine_tables)")
     # function level: the column part of _combine_tables for every observed call
     for rec in hk.recs:
         if rec["out_ok"] and rec["srcs"]:
@@ -1075,7 +1132,7 @@ def derived(ctx, fn, desc, keeps_units=True):
                 continue
             ctx.fn_ops.append(({"op": "meta_combine", "srcs": rec["srcs"], "out": [c[0] for c in rec["frame"]["cols"]]},
                                exp, "_combine_tables(" + str(rec["method"]) + ")"))
-    if getattr(ctx.df, "_table_data", None) is not old_info:
+    if table_info_of(ctx.df) is not old_info:
         raise Abort("operation replaced the info object of its source")
     if err is not None:
         bad = [rec for rec in hk.recs if rec["exc"] is not None]
@@ -1102,7 +1159,7 @@ def derived(ctx, fn, desc, keeps_units=True):
         return desc + " -> pandas " + type(err).__name__
     if not isinstance(r, pd.DataFrame):
         return desc + " -> no frame"
-    info = getattr(r, "_table_data", None)
+    info = table_info_of(r)
     if info is None:
         out.count("metadata_dropped")
         return desc + " -> plain DataFrame (kept the old table)"
@@ -1239,6 +1296,43 @@ def op_rows(ctx):
     return derived(ctx, lambda df: df[[i % 2 == 0 for i in range(len(df))]], "df[bool mask]")
 
 
+def op_sort_values(ctx):
+    cur = list(ctx.df.columns)
+    if not cur:
+        return "sort_values(nothing)"
+    by = ctx.rng.choice(cur)
+    asc = ctx.rng.chance(0.5)
+    return derived(ctx, lambda df: df.sort_values(by=by, ascending=asc), f"df.sort_values({by!r},asc={asc})")
+
+
+def op_deepcopy(ctx):
+    import copy
+    return derived(ctx, lambda df: copy.deepcopy(df), "copy.deepcopy(df)")
+
+
+def op_pickle(ctx):
+    """a pickle round trip of the frame: the copy carries a copy of the table information as it is (register and
+    whatever is remembered); no `__finalize__` is involved.  Model: the info is cloned."""
+    import pickle
+    old_slot = ctx.cur.slot
+    try:
+        r = pickle.loads(pickle.dumps(ctx.df))
+    except Exception as e:
+        ctx.out.count("pandas_error:" + type(e).__name__)
+        return "pickle round trip -> " + type(e).__name__
+    info = table_info_of(r)
+    if info is None:
+        ctx.out.count("metadata_dropped")
+        return "pickle round trip -> table information lost (kept the old table)"
+    if info is ctx.info:
+        raise Abort("unpickled frame aliases the info object of its source")
+    taint, reval, fmts = ctx.tainted, ctx.revalidated, dict(ctx.assigned_fmt)
+    ctx.df = r
+    ctx.tainted, ctx.revalidated, ctx.assigned_fmt = taint, reval, fmts      # same state, same obligations
+    ctx.send("clone", None, t=old_slot)
+    return "pickle round trip of the frame"
+
+
 def op_set_axis(ctx):
     rng = ctx.rng
     n = len(ctx.df.columns)
@@ -1263,6 +1357,7 @@ OPS = {
     "df_drop_rows": (op_df_drop_rows, 2), "df_dropcols": (op_df_drop_cols_inplace, 2), "df_setcell": (op_df_setcell, 2),
     "df_fillna_inplace": (op_df_fillna_inplace, 1), "df_restore": (op_df_restore, 5), "df_del_all": (op_df_del_all, 2),
     "df_break_middle": (op_df_break_middle, 2),
+    "sort_values": (op_sort_values, 3), "deepcopy": (op_deepcopy, 2), "pickle": (op_pickle, 2),
     "select": (op_select, 6), "copy": (op_copy, 3), "sort_index": (op_sort_index, 3), "reindex": (op_reindex, 4),
     "concat": (op_concat, 6), "merge": (op_merge, 5), "assign": (op_assign, 4), "drop": (op_drop, 3),
     "astype": (op_astype, 4), "fillna": (op_fillna, 2), "replace": (op_replace, 2), "rename": (op_rename, 3),
@@ -1272,7 +1367,7 @@ OPS = {
 C15_WEIGHTS = {
     "add_column": 8, "setitem": 8, "set_units": 5, "set_col_unit": 5, "set_all_units": 1, "rewrap": 6,
     "df_assign": 10, "df_astype": 10, "df_loc_append": 10, "df_drop_rows": 5, "df_setcell": 6, "df_fillna_inplace": 3,
-    "df_insert": 3, "df_del": 2, "df_rename": 1, "df_move": 1, "df_restore": 6, "df_setcols": 2, "df_del_all": 1, "set_format": 1, "set_strict": 6, "copy": 5, "astype": 8, "fillna": 6, "replace": 5,
+    "df_insert": 3, "df_del": 2, "df_rename": 1, "df_move": 1, "df_restore": 6, "df_setcols": 2, "df_del_all": 1, "set_format": 1, "set_strict": 6, "pickle": 3, "deepcopy": 2, "copy": 5, "astype": 8, "fillna": 6, "replace": 5,
     "rows": 6, "concat": 4, "merge": 2, "assign": 3, "select": 2, "reindex": 2,
 }
 
@@ -1332,9 +1427,12 @@ def probe(ctx, writers):
     if units is not None:
         import pandas as pd
         ctx.snap = pd.DataFrame(df).copy()       # plain copy of the frame as last consulted successfully
-    if units is not None and ctx.tainted and (ctx.taint_obs is None or ctx.look() != ctx.taint_obs):
-        # the table no longer looks like it did when it was relabelled (or add_column asked for re-validation):
-        # this successful consultation cannot have been skipped, the guarantee is back
+    if units is None and ctx.tainted:
+        ctx.revalidated = True                   # the consultation raised: the library validated (and refused)
+    if units is not None and ctx.tainted and ctx.revalidated:
+        # after the excluded relabelling the library has, visibly, validated again (add_column asked for it, or a
+        # consultation raised, or the table was re-wrapped / derived): the guarantee is back.  Nothing is assumed
+        # about *what* the library remembers between consultations.
         ctx.tainted = False
         ctx.out.count("c15_taint_cleared")
     if not lookups_first:
@@ -1348,6 +1446,28 @@ def probe(ctx, writers):
     except Exception as e:
         it = exc_name(e)
     ctx.send("iter", it)
+    if units is not None:
+        now = (ctx.look(), dict(zip(names, units)) if len(set(names)) == len(names) and len(names) == len(units) else None)
+        seen = ctx.seen
+        if ctx.refused and ctx.ops_since == 1 and seen is not None and seen[0] == now[0] and seen[1] is not None \
+                and now[1] is not None and seen[1] != now[1]:
+            _fail(ctx, "an operation that pandas refused (nothing was assigned) changed the units the table reports",
+                  {"before": seen[1], "after": now[1]}, "the table as it was before the refused operation",
+                  ctx.prop + ":refused-operation-changed-table")
+        ctx.seen = now
+        ctx.ops_since = 0
+    ctx.refused = False
+    extra = {}
+    if units is not None:
+        try:
+            extra["proxies"] = [[c.name, c.unit] for c in quiet(lambda: t.column_proxies)]
+        except Exception as e:
+            extra["proxies"] = exc_name(e)
+        try:
+            extra["annotated"] = list(quiet(t.as_dataframe_with_annotated_column_names).columns)
+        except Exception as e:
+            extra["annotated"] = exc_name(e)
+    ctx.extra = extra
     wr = None
     if writers:
         wr = run_writers(ctx, t)
@@ -1361,33 +1481,80 @@ def probe(ctx, writers):
         out.count("frame:" + ("empty" if df.empty else "rows"))
 
 
-_WB = []
+_TMP = {"dir": None}
+ILLEGAL_XLSX = re.compile(r"[\x00-\x08\x0b\x0c\x0e-\x1f]")
+WRITERS = ("csv", "csv_t", "xlsx", "json")
 
 
-def _fresh_sheet():
-    """an empty in-memory worksheet (one workbook per process, a new sheet per probe, the previous one dropped)"""
-    import openpyxl
-    if not _WB:
-        _WB.append(openpyxl.Workbook())
-    wb = _WB[0]
-    for old in wb.worksheets[1:]:
-        wb.remove(old)
-    return wb.create_sheet()
+def writer_reasons(t, df, names, own):
+    """oracle-side: for which writers is this readable table something the writer has to handle, and if not, why.
+    Judged from the data and the units/formats, never from what a writer raised.  {writer: reason or None}"""
+    import pandas as pd
+    reasons = {"csv": None, "xlsx": None, "json": None}
+    try:
+        cm = t.column_metadata
+    except Exception:
+        cm = {}
+    for w in ("xlsx",):
+        if ILLEGAL_XLSX.search(str(t.name)):
+            reasons[w] = "control character Excel cannot hold"
+    for j, (n, dt) in enumerate(zip(df.columns, df.dtypes)):
+        u = own[j] if j < len(own) else None
+        f = cm[n].display_format if n in cm else None
+        kind = dt.kind
+        if u == "datetime" and kind != "M":
+            reasons["csv"] = reasons["csv"] or "unit 'datetime' on data that are not datetimes"
+            reasons["xlsx"] = reasons["xlsx"] or "unit 'datetime' on data that are not datetimes"
+        if f is not None and (kind not in "fiub" or u in ("text", "datetime")):
+            reasons["csv"] = reasons["csv"] or "numeric display format on a column that does not hold plain numbers"
+        if ILLEGAL_XLSX.search(str(n)) or (isinstance(u, str) and ILLEGAL_XLSX.search(u)):
+            reasons["xlsx"] = reasons["xlsx"] or "control character Excel cannot hold"
+        sdt = str(dt)
+        exotic = kind in "cm" or sdt.startswith("period") or sdt.startswith("interval")
+        if exotic:
+            reasons["json"] = reasons["json"] or "value type JSON has no form for (" + sdt.split("[")[0] + ")"
+        if kind == "c" or sdt.startswith("period") or getattr(dt, "tz", None) is not None:
+            reasons["xlsx"] = reasons["xlsx"] or "value type Excel cannot hold (" + sdt.split("[")[0].split(",")[0] + ")"
+        vals = df.iloc[:, j].tolist() if (kind == "O" or u == "text") else []
+        if u == "text" and any(v is pd.NA for v in vals):
+            # finding (value level, not C04's): `_represent_row_elements` evaluates `val == ""` on pd.NA -> TypeError
+            why = "pd.NA in a 'text' column (write_csv / write_excel raise TypeError: separate finding)"
+            reasons["csv"] = reasons["csv"] or why
+            reasons["xlsx"] = reasons["xlsx"] or why
+        if kind == "O":
+            for v in vals:
+                if isinstance(v, str) and ILLEGAL_XLSX.search(v):
+                    reasons["xlsx"] = reasons["xlsx"] or "control character Excel cannot hold"
+                elif isinstance(v, (pd.Period, pd.Interval, complex)):
+                    reasons["json"] = reasons["json"] or "value type JSON has no form for (" + type(v).__name__ + ")"
+                    reasons["xlsx"] = reasons["xlsx"] or "value type Excel cannot hold (" + type(v).__name__ + ")"
+                elif isinstance(v, pd.Timedelta):
+                    reasons["json"] = reasons["json"] or "value type JSON has no form for (Timedelta)"
+                elif isinstance(v, pd.Timestamp) and v.tzinfo is not None:
+                    reasons["xlsx"] = reasons["xlsx"] or "value type Excel cannot hold (tz-aware datetime)"
+    return reasons
+
+
+def wexc(e):
+    """a writer's exception: class (compared) and message (diagnostics only)"""
+    return {"exc": type(e).__name__, "msg": str(e)[:160]}
 
 
 def run_writers(ctx, t):
-    """names / units / formats as they appear in the three writers' outputs (text, dict, sheet rows)"""
+    """names / units / values as they appear in what the three public writers produce: `write_csv` text (both
+    orientations, a separator drawn per probe, given as argument or as package default), `table_to_json_data`, and
+    `write_excel` (to a stream or a path, one orientation per probe) read back with openpyxl"""
+    import os
     import openpyxl
-    from pdtable import write_csv
+    from pdtable import write_csv, write_excel
     from pdtable.io.json import table_to_json_data
-    from pdtable.io._excel_openpyxl import _append_table_to_openpyxl_worksheet
     import pdtable
     res = {}
-    # the separator of this probe: given explicitly, or as the (temporarily changed) package default
     sep = ctx.rng.choice([";", ";", ",", "\t", "|"])
     explicit = ctx.rng.chance(0.5)
     ctx.out.count("csv_sep:" + repr(sep) + (":arg" if explicit else ":default"))
     old_default = pdtable.CSV_SEP
+    ncol = len(t.df.columns)
 
     def write(tab):
         s = io.StringIO()
@@ -1397,6 +1564,24 @@ def run_writers(ctx, t):
             quiet(write_csv, tab, s)
         return s.getvalue().split("\n")
 
+    def excel_rows(tab):
+        to_path = ctx.rng.chance(0.4)           # drawn whether or not a scratch directory exists (replays have none)
+        if to_path and _TMP["dir"] is not None:
+            path = os.path.join(_TMP["dir"], "probe.xlsx")
+            quiet(write_excel, tab, path)
+            src = path
+        else:
+            src = io.BytesIO()
+            quiet(write_excel, tab, src)
+            src.seek(0)
+        wb = openpyxl.load_workbook(src, read_only=True)
+        try:
+            return [list(r) for r in wb.worksheets[0].iter_rows(values_only=True)]
+        finally:
+            wb.close()
+
+    do_xlsx = ctx.rng.chance(0.3)
+    xlsx_transposed = ctx.rng.chance(0.5)
     res["sep"] = sep
     try:
         if not explicit:
@@ -1406,45 +1591,44 @@ def run_writers(ctx, t):
             res["csv"] = {"names": lines[2].split(sep), "units": lines[3].split(sep),
                           "rows": [ln.split(sep) for ln in lines[4:] if ln != ""], "head": lines[0]}
         except Exception as e:
-            res["csv"] = exc_name(e)
-        # the same table written transposed (one line per column: name<sep>unit<sep>values...)
+            res["csv"] = wexc(e)
+        if do_xlsx and not xlsx_transposed:
+            try:
+                rows = excel_rows(t)
+                res["xlsx"] = {"names": [c for c in (rows[2] if len(rows) > 2 else []) if c is not None][:max(ncol, 0)] if ncol else
+                               [c for r in rows[2:] for c in r if c is not None],
+                               "units": [c for c in (rows[3] if len(rows) > 3 else [])][:ncol] if ncol else []}
+            except Exception as e:
+                res["xlsx"] = wexc(e)
+        meta = None
         try:
             meta = quiet(lambda: t.metadata)
+        except Exception as e:
+            res["csv_t"] = wexc(e)
+        if meta is not None:
             was = meta.transposed
             meta.transposed = True
             try:
-                lines = write(t)
-                ncol = len(t.df.columns)
-                res["csv_t"] = {"cols": [ln.split(sep) for ln in lines[2:2 + ncol]], "head": lines[0]}
                 try:
-                    ws = _fresh_sheet()
-                    quiet(_append_table_to_openpyxl_worksheet, t, ws, 1, "-")
-                    rows = list(ws.iter_rows(values_only=True))
-                    res["xlsx_t"] = {"cols": [[r[0], r[1]] for r in rows[2:2 + ncol]], "head": rows[0][0]}
+                    lines = write(t)
+                    res["csv_t"] = {"cols": [ln.split(sep) for ln in lines[2:2 + ncol]], "head": lines[0]}
                 except Exception as e:
-                    res["xlsx_t"] = exc_name(e)
+                    res["csv_t"] = wexc(e)
+                if do_xlsx and xlsx_transposed:
+                    try:
+                        rows = excel_rows(t)
+                        res["xlsx_t"] = {"cols": [[r[0], r[1]] for r in rows[2:2 + ncol]]}
+                    except Exception as e:
+                        res["xlsx_t"] = wexc(e)
             finally:
                 meta.transposed = was
-        except Exception as e:
-            res["csv_t"] = exc_name(e)
     finally:
         pdtable.CSV_SEP = old_default
     try:
         jd = quiet(table_to_json_data, t)
         res["json"] = [[k, v["unit"]] for k, v in jd["columns"].items()]
     except Exception as e:
-        res["json"] = dict(exc_name(e), value_level=_raised_in(e, "to_json_serializable"))
-    try:
-        ws = _fresh_sheet()
-        quiet(_append_table_to_openpyxl_worksheet, t, ws, 1, "-")
-        rows = list(ws.iter_rows(values_only=True))
-        if len(t.df.columns) == 0:
-            # openpyxl drops the two empty appended rows: nothing but the header and destinations lines
-            res["xlsx"] = {"names": [c for r in rows[2:] for c in r if c is not None], "units": []}
-        else:
-            res["xlsx"] = {"names": [c for c in rows[2]], "units": [c for c in rows[3]]}
-    except Exception as e:
-        res["xlsx"] = exc_name(e)
+        res["json"] = wexc(e)
     # model side: header + json pairing
     try:
         fmts = [None if c.display_format is None else str(c.display_format.specifier)
@@ -1454,12 +1638,35 @@ def run_writers(ctx, t):
         hdr = exc_name(e)
     ctx.send("header", hdr)
     js = res["json"]
-    if isinstance(js, dict) and js["value_level"]:
-        ctx.out.count("json_value_error:" + js["exc"])      # a cell value JSON cannot carry: not the pairing
-        res["json"] = None
+    if isinstance(js, dict) and js["exc"] not in REFUSALS + ("IndexError", "KeyError"):
+        pass                                    # judged by the oracle (writer_reasons); nothing the model speaks about
     else:
         ctx.send("json", {"exc": js["exc"]} if isinstance(js, dict) else js)
     return res
+
+
+def _judge_writer(ctx, writer, result, reason, df, t):
+    """a writer probe either produced output (-> pairing is checked by the caller, returns True) or raised: that is a
+    failure unless the oracle-side reason says this table is outside what the writer handles"""
+    out = ctx.out
+    out.count("writer_probe:" + writer)
+    if "exc" not in result:
+        out.count("writer_judged:" + writer)
+        return True
+    if reason is not None:
+        out.count(f"{writer}_not_judged:{reason}")
+        return False
+    key = f"writer_raised:{writer}:{result['exc']}"
+    if writer.startswith("csv") and result["exc"] == "ValueError":
+        try:
+            cm = t.column_metadata
+            if any(cm[n].display_format is not None and df[n].isna().any() for n in df.columns if n in cm):
+                key = "display_format_applied_to_na_rep"
+        except Exception:
+            pass
+    _fail(ctx, f"{writer} writer raised on a readable table it has to handle", result,
+          "the table written", key)
+    return False
 
 
 def oracle_c04(ctx, t, units, ures, lookups, it, wr):
@@ -1501,16 +1708,32 @@ def oracle_c04(ctx, t, units, ures, lookups, it, wr):
                 if spec_now != ctx.assigned_fmt[n]:
                     return _fail(ctx, "a column does not carry the display format that was given for it",
                                  {"column": n, "display_format": spec_now}, ctx.assigned_fmt[n], "C04:own-format")
+    if len(set(names)) == len(names):
+        for n, u in zip(names, units):
+            if n not in ctx.assigned and isinstance(by_name.get(n), str):
+                ctx.assigned[n] = u          # first report of this column's unit: from now on its own unit
+    extra = getattr(ctx, "extra", {})
+    if "proxies" in extra and len(set(names)) == len(names):
+        want = [[n, u] for n, u in zip(names, units)]
+        if extra["proxies"] != want:
+            return _fail(ctx, "Table.column_proxies does not give the dataframe columns with their own units",
+                         extra["proxies"], want, "C04:column-proxies")
+        want = [f"{n} [{u}]" for n, u in zip(names, units)]
+        ann = extra["annotated"]
+        if isinstance(ann, dict) and ann.get("exc") in REFUSALS:
+            out.count("annotated_refused:" + ann["exc"])      # it works on a copy: a fresh validation may refuse it
+        elif ann != want:
+            return _fail(ctx, "as_dataframe_with_annotated_column_names pairs names with other columns' units",
+                         extra["annotated"], want, "C04:annotated-names")
     if isinstance(it, dict) or [p[0] for p in it] != names or [p[1] for p in it] != units:
         return _fail(ctx, "iterating the table does not give the dataframe columns with their units", it,
                      [[n, u] for n, u in zip(names, units)], "C04:iteration")
     if wr is None:
         return
     own = [by_name[n] for n in names]
+    reasons = writer_reasons(t, df, names, own)
     csv = wr["csv"]
-    if "exc" in csv:
-        out.count("csv_value_error:" + csv["exc"])            # cell formatting problems are not C04's subject
-    else:
+    if _judge_writer(ctx, "csv", csv, reasons["csv"], df, t):
         if csv["head"] != "**" + t.name + wr["sep"]:
             return _fail(ctx, "write_csv does not use the separator it was given", csv["head"], "**" + t.name + wr["sep"],
                          "C04:csv-separator")
@@ -1524,49 +1747,49 @@ def oracle_c04(ctx, t, units, ures, lookups, it, wr):
             written = {n: (csv["units"][j], [r[j] for r in csv["rows"]]) for j, n in enumerate(names)}
             if _check_written_columns(ctx, t, names, own, written, "write_csv"):
                 return
+    if ctx.failed:
+        return
     csv_t = wr.get("csv_t")
-    if csv_t is not None:
-        if "exc" in csv_t:
-            out.count("csv_transposed_value_error:" + csv_t["exc"])
-        elif names:
-            cols = csv_t["cols"]
-            if csv_t["head"] != "**" + t.name + "*" + wr["sep"]:
-                return _fail(ctx, "write_csv (transposed) does not use the separator it was given", csv_t["head"],
-                             "**" + t.name + "*" + wr["sep"], "C04:csv-separator")
-            if [c[0] for c in cols] != [str(n) for n in names]:
-                return _fail(ctx, "write_csv (transposed) does not write one line per dataframe column in column order",
-                             [c[0] for c in cols], names, "C04:csv-transposed-columns")
-            if any(len(c) < 2 for c in cols):
-                return _fail(ctx, "write_csv (transposed) does not separate column name and unit with the separator",
-                             cols, [[str(n), u] for n, u in zip(names, own)], "C04:csv-pairing")
-            if all(len(c) == 2 + len(df) for c in cols):
-                written = {n: (c[1], c[2:]) for n, c in zip(names, cols)}
-                if _check_written_columns(ctx, t, names, own, written, "write_csv (transposed)"):
-                    return
+    if csv_t is not None and _judge_writer(ctx, "csv_t", csv_t, reasons["csv"], df, t) and names:
+        cols = csv_t["cols"]
+        if csv_t["head"] != "**" + t.name + "*" + wr["sep"]:
+            return _fail(ctx, "write_csv (transposed) does not use the separator it was given", csv_t["head"],
+                         "**" + t.name + "*" + wr["sep"], "C04:csv-separator")
+        if [c[0] for c in cols] != [str(n) for n in names]:
+            return _fail(ctx, "write_csv (transposed) does not write one line per dataframe column in column order",
+                         [c[0] for c in cols], names, "C04:csv-transposed-columns")
+        if any(len(c) < 2 for c in cols):
+            return _fail(ctx, "write_csv (transposed) does not separate column name and unit with the separator",
+                         cols, [[str(n), u] for n, u in zip(names, own)], "C04:csv-pairing")
+        if all(len(c) == 2 + len(df) for c in cols):
+            written = {n: (c[1], c[2:]) for n, c in zip(names, cols)}
+            if _check_written_columns(ctx, t, names, own, written, "write_csv (transposed)"):
+                return
+    if ctx.failed:
+        return
     xl_t = wr.get("xlsx_t")
-    if xl_t is not None:
-        if "exc" in xl_t:
-            out.count("xlsx_transposed_value_error:" + xl_t["exc"])
-        elif names and xl_t["cols"] != [[str(n), u] for n, u in zip(names, own)]:
-            return _fail(ctx, "excel layout (transposed) does not write one line per dataframe column with its own unit",
+    if xl_t is not None and _judge_writer(ctx, "xlsx", xl_t, reasons["xlsx"], df, t) and names:
+        if xl_t["cols"] != [[str(n), u] for n, u in zip(names, own)]:
+            return _fail(ctx, "write_excel (transposed) does not write one line per dataframe column with its own unit",
                          xl_t["cols"], [[str(n), u] for n, u in zip(names, own)], "C04:xlsx-pairing")
+    xl = wr.get("xlsx")
+    if xl is not None and _judge_writer(ctx, "xlsx", xl, reasons["xlsx"], df, t):
+        if not names and (xl["names"] or xl["units"]):
+            return _fail(ctx, "write_excel has name or unit cells for a table without columns", xl,
+                         {"names": [], "units": []}, "C04:xlsx-pairing")
+        if names and (list(xl["names"]) != names or list(xl["units"]) != own):
+            return _fail(ctx, "write_excel pairs column names with other columns' units", xl,
+                         {"names": names, "units": own}, "C04:xlsx-pairing")
+    if ctx.failed:
+        return
     js = wr["json"]
-    if js is None:
-        pass
-    elif isinstance(js, dict):
-        _fail(ctx, "table_to_json_data crashed on a readable table", js, "JsonData", "C04:json-crash:" + js["exc"])
-    elif js != [[n, u] for n, u in zip(names, own)]:
-        return _fail(ctx, "table_to_json_data pairs column names with other columns' units", js,
-                     [[n, u] for n, u in zip(names, own)], "C04:json-pairing")
-    xl = wr["xlsx"]
-    if "exc" in xl:
-        out.count("xlsx_value_error:" + xl["exc"])            # openpyxl refusing a cell value
-    elif not names and (xl["names"] or xl["units"]):
-        return _fail(ctx, "excel layout has name or unit cells for a table without columns", xl, {"names": [], "units": []},
-                     "C04:xlsx-pairing")
-    elif names and (list(xl["names"]) != names or list(xl["units"]) != own):
-        return _fail(ctx, "excel layout pairs column names with other columns' units", xl,
-                     {"names": names, "units": own}, "C04:xlsx-pairing")
+    if isinstance(js, dict) and js["exc"] in ("IndexError", "KeyError") and reasons["json"] is None:
+        return _fail(ctx, "table_to_json_data runs out of units / columns on a readable table", js, "JsonData",
+                     "C04:json-crash:" + js["exc"])
+    if _judge_writer(ctx, "json", js if isinstance(js, dict) else {}, reasons["json"], df, t):
+        if js != [[n, u] for n, u in zip(names, own)]:
+            return _fail(ctx, "table_to_json_data pairs column names with other columns' units", js,
+                         [[n, u] for n, u in zip(names, own)], "C04:json-pairing")
 
 
 def _check_written_columns(ctx, t, names, own, written, label):
@@ -1592,12 +1815,13 @@ def _check_written_columns(ctx, t, names, own, written, label):
                       {"column": n, "display_format": impl_spec}, spec, "C04:own-format")
                 return True
         else:
-            spec = impl_spec                  # history lost track (rename, merge, ...): weaker, self-referential check
-            ctx.out.count("fmt_expected:from_register")
+            ctx.out.count("fmt_not_judged:history lost track of this column's format")
+            continue
         for x, cell in zip(col.tolist(), cells):
             if x != x:
-                continue                      # missing values are written as the na_rep, not formatted
-            exp = ("{:" + spec + "}").format(x) if spec is not None else str(x)
+                exp = "-"                     # a missing value is written as the na_rep, whatever the display format
+            else:
+                exp = ("{:" + spec + "}").format(x) if spec is not None else str(x)
             if cell != exp:
                 _fail(ctx, f"{label} does not render a column with that column's own display format",
                       {"column": n, "display_format": spec, "cell": cell,
@@ -1690,6 +1914,7 @@ def run_history(out, prop, seed, stream, index, depth, weights=None, plan=None, 
             k = s if s is not None else rng.choices(names, wts)[0]
             skip = k.endswith("!") or (s is None and rng.chance(0.25))
             k = k.rstrip("!")
+            ctx.ops_since += 1
             d = OPS[k][0](ctx)
             out.count("op:" + k)
             cur_names = set(ctx.df.columns)
@@ -1721,6 +1946,8 @@ def function_level(out, rng, n):
     """unit_from_dtype / check_dtype on every (unit, kind) pair; _update_columns on random registers x frames"""
     import pandas as pd
     from pdtable.table_metadata import (ColumnMetadata, ComplementaryTableInfo, TableMetadata, unit_from_dtype)
+    if not hasattr(rng, "chance"):
+        rng = RecRng(rng)           # the value generators use `chance`; a plain random.Random does not have it
     ops, pend = [], []
     kinds = ["b", "i", "u", "f", "M", "O", "S", "U", "m", "c", "V", "T", "", "OO", "B", "F"]
     for k in kinds:
@@ -1769,7 +1996,7 @@ def function_level(out, rng, n):
 
 SCRIPT_ALPHABET = ["add_column", "setitem", "set_col_unit", "df_insert", "df_del", "df_rename", "df_move",
                    "df_assign", "df_astype", "df_loc_append", "df_drop_rows", "select", "copy", "sort_index",
-                   "reindex", "concat", "merge", "assign", "drop", "astype", "rows", "rewrap", "df_del_all", "set_format", "set_strict"]
+                   "reindex", "concat", "merge", "assign", "drop", "astype", "rows", "rewrap", "df_del_all", "set_format", "set_strict", "sort_values", "pickle"]
 EX_PLAN = (["a", "b", "c"], ["f", "s", "b"], 2, "good", True)
 # second enumeration, aimed at the remembered-state short cut: emptiness transitions around type-changing edits
 E_ALPHABET = ["df_drop_rows", "df_loc_append", "df_insert!", "df_assign!", "setitem!", "add_column!", "df_astype",
@@ -1787,6 +2014,10 @@ WIDE_SCRIPTS = [("df_break_middle",), ("set_format", "df_break_middle"), ("df_mo
 def wide_plan(width):
     kinds = ["f", "s", "b", "i", "s", "f", "b"]
     return (["c%04d" % j for j in range(width)], [kinds[j % len(kinds)] for j in range(width)], 2, "good", True)
+
+
+SAME_PLANS = [(["a", "b", "c"], ["f", "f", "s"], 2, "none", True), (["a", "b", "c", "d"], ["s", "i", "s", "i"], 1, "map", False)]
+SAME_ALPHABET = ["set_col_unit", "set_units", "add_column", "set_format", "setitem", "df_insert!"]
 
 
 def scripts_of(alphabet, depth):
@@ -1836,12 +2067,26 @@ def run(tier, seed, model_ok, translator, search=False, prop="C04", weights=None
                 "relabel, move, sort, assign, astype, loc row append, drop rows/columns, cell assignment, fillna; pandas "
                 "select, copy, sort_index, reindex, concat both axes, merge, assign, drop, astype, fillna, replace, rename, "
                 "row selections incl. empty, set_axis, iloc); after every operation the table is consulted (units, per-column "
-                "lookup, iteration, writers) and compared with the model step by step; bounded-exhaustive scripts over a "
-                "25-operation alphabet from a fixed 3-column table and over an 8-operation alphabet around emptiness "
-                "transitions. Non-trivial: history with >= 1 successful consultation of "
+                "lookup, iteration, column proxies, annotated frame, writers) and compared with the model step by step. "
+                "Enumerated part (operation KINDS only, arguments random): quick = every script of length 1 and a "
+                "seed-selected half of those of length 2 over 27 kinds (thorough: all of length <= 2) "
+                "from one fixed 3-column table + every script of length 2..3 over 9 kinds around emptiness transitions + "
+                "scripted edits on 61/64/90/300-column tables; thorough adds a seed-selected fifth of the length-3 scripts and "
+                "more widths. Depth 3 is NOT exhaustive in either tier. Non-trivial: history with >= 1 successful consultation of "
                 "a table with rows after an operation; distinct by (start table, operation descriptions).")
     thorough = tier == "thorough"
-    n_rand = 1500 if thorough else 320
+    import shutil
+    import tempfile
+    _TMP["dir"] = tempfile.mkdtemp(prefix="pdt-c04-")
+    try:
+        return _run(out, tier, seed, model_ok, translator, search, prop, weights, thorough)
+    finally:
+        shutil.rmtree(_TMP["dir"], ignore_errors=True)
+        _TMP["dir"] = None
+
+
+def _run(out, tier, seed, model_ok, translator, search, prop, weights, thorough):
+    n_rand = 1500 if thorough else 260
     depth_max = 10
     ex_depth = 3 if thorough else 2
     if search:
@@ -1868,7 +2113,9 @@ def run(tier, seed, model_ok, translator, search=False, prop="C04", weights=None
     n_scripts = 0
     for i, sc in enumerate(scripts):
         if len(sc) == 3 and (i + seed) % 5 != 0:
-            continue                      # budget: all scripts of length <= 2, a seed-selected fifth of those of length 3
+            continue                      # budget: a seed-selected fifth of the scripts of length 3 (thorough only)
+        if len(sc) == 2 and not thorough and (i + seed) % 2 != 0:
+            continue                      # budget: quick runs a seed-selected half of the scripts of length 2
         n_scripts += 1
         add(run_history(out, prop, seed, "ex%d" % ex_depth, i, len(sc), weights=None, plan=EX_PLAN, script=list(sc)))
     e_depth = 3
@@ -1879,6 +2126,9 @@ def run(tier, seed, model_ok, translator, search=False, prop="C04", weights=None
         add(run_history(out, prop, seed, "exE%d" % e_depth, i, len(sc), weights=None,
                         plan=E_PLANS[(i + i // (len(escripts) // 2 if thorough else len(escripts) + 1)) % 2], script=list(sc)))
     out.count("exhaustive_scripts", n_scripts + len(escripts))
+    # several columns of one dtype that get their default units in the same reconciliation, then edits of one of them
+    for i, sc in enumerate(x for x in scripts_of(SAME_ALPHABET, 2) if x):
+        add(run_history(out, prop, seed, "same", i, len(sc), weights=None, plan=SAME_PLANS[i % 2], script=list(sc)))
     # wide tables: type-breaking edits to middle columns after a first consultation, and the usual operations
     widths = WIDTHS_THOROUGH if thorough else WIDTHS_QUICK
     for wi, width in enumerate(widths):
@@ -1895,9 +2145,15 @@ def run(tier, seed, model_ok, translator, search=False, prop="C04", weights=None
         pend += fpend
         for (what, case, exp), ans in zip(pend, common.run_model(ops)):
             compare(out, what, case, exp, ans)
+    # oracle health: a writer probe that never gets as far as the pairing check checks nothing
+    for w, floor in (("csv", 0.8), ("csv_t", 0.8), ("json", 0.8), ("xlsx", 0.6)):
+        tot, ok = out.dist.get("writer_probe:" + w, 0), out.dist.get("writer_judged:" + w, 0)
+        if prop == "C04" and tot >= 50 and ok < floor * tot:
+            out.mismatch(f"oracle health: only {ok} of {tot} {w} writer probes reached the pairing check",
+                         {"tier": tier, "seed": seed}, {"judged": ok, "probes": tot}, {"floor": floor})
     out.exhaustive = False
     out.notes.append(f"bounded-exhaustive part: {n_scripts} operation-kind scripts of length <= {ex_depth} over "
-                     f"{len(SCRIPT_ALPHABET)} kinds from one fixed start table (all of length <= 2; of length 3 the fifth selected "
+                     f"{len(SCRIPT_ALPHABET)} kinds from one fixed start table (quick: length 1 and half of length 2; thorough: all of length <= 2 and of length 3 the fifth selected "
                      f"by the seed), and all {len(escripts)} scripts of length 2..{e_depth} "
                      f"over {len(E_ALPHABET)} kinds around emptiness transitions from two start tables (arguments random): "
                      "validates the model against the code, it is not the proof")
@@ -1905,6 +2161,13 @@ def run(tier, seed, model_ok, translator, search=False, prop="C04", weights=None
 
 
 def replay(rep, prop="C04", weights=None):
+    try:
+        return _replay(rep, prop, weights)
+    except Exception as e:                       # a harness problem is not a property failure
+        return True, f"replay could not be run by this harness ({type(e).__name__}: {e}): nothing to report"
+
+
+def _replay(rep, prop="C04", weights=None):
     """a failing history is re-run from its recorded draws (`recipe`); older replay files without a recipe are
     regenerated from (seed, stream, index)"""
     inp = rep.get("input") or {}
